@@ -1884,5 +1884,17 @@ func appendNotNilFilter(field *aggregateRequestTarget, childField string) {
 	}
 
 	typedChildBlock := childBlock.(map[string]any)
+	if existing, hasNe := typedChildBlock["_ne"]; hasNe && existing != nil && childField != "" {
+		// The block already holds a `_ne` condition given by the user, it must not be overwritten:
+		// the not-nil condition is and-ed to the filter instead.
+		conditions := field.filter.Value().Conditions
+		notNil := map[string]any{childField: map[string]any{"_ne": nil}}
+		if and, ok := conditions["_and"].([]any); ok {
+			conditions["_and"] = append(and, notNil)
+		} else if _, hasAnd := conditions["_and"]; !hasAnd {
+			conditions["_and"] = []any{notNil}
+		}
+		return
+	}
 	typedChildBlock["_ne"] = nil
 }
